@@ -27,7 +27,58 @@ def cases():
               lambda x, v: v * (1.0 - onp.tanh(x) ** 2 + 1.0 / (1.0 + x * x) + onp.exp(x) + 2.0 * x / (1.0 + x * x))))
     C.append(("np.sum / np.prod-free reductions with zeros: mean, var", lambda np, x: np.mean(x) + np.var(x), x0, lambda x, v: onp.sum(v) / 3.0 + onp.sum(2.0 * (x - onp.mean(x)) * (v - onp.mean(v))) / 3.0))
     C.append(("np.where(x == 0, 1.0, x) * x", lambda np, x: np.where(x == 0, 1.0, x) * x, x0, lambda x, v: v * onp.where(x == 0, 1.0, 2.0 * x)))
+    # NaN-ignoring selectors: where the OTHER operand is NaN the result is x itself (derivative 1): a regular point
+    YN = onp.array([onp.nan, 1.0, onp.nan])
+    C.append(("np.fmax(x, y) with NaN entries in y", lambda np, x: np.fmax(x, YN), x0, lambda x, v: v * onp.where(onp.isnan(YN) | (x > YN), 1.0, 0.0)))
+    C.append(("np.fmin(y, x) with NaN entries in y", lambda np, x: np.fmin(YN, x), x0, lambda x, v: v * onp.where(onp.isnan(YN) | (x < YN), 1.0, 0.0)))
+    C.append(("np.nansum-free: np.where(isnan(y), x, x*y)", lambda np, x: np.where(onp.isnan(YN), x, x * 2.0), x0, lambda x, v: v * onp.where(onp.isnan(YN), 1.0, 2.0)))
     return C
+
+
+def adjoint_points():
+    """(label, f, point): forward and reverse mode must pair up, <g, jvp(v)> == <vjp(g), v>, also AT the non-smooth
+    points the rules handle explicitly (C04 is stated wherever both modes are defined)"""
+    import numpy as onp
+
+    xb = onp.array([0.0, 0.25, 1.0, 0.5, 1.0, 0.0])
+    xt = onp.array([1.0, 1.0, 0.5, 1.0])
+    return [
+        ("np.clip(x, 0, 1) with entries exactly on both bounds", lambda np, x: np.clip(x, 0.0, 1.0), xb),
+        ("sin(clip(2x - 0.5, 0, 1)) landing on a bound", lambda np, x: np.sin(np.clip(2.0 * x - 0.5, 0.0, 1.0)), onp.array([0.25, 0.75, 0.5, 0.1])),
+        ("np.maximum(x, 0.25) / np.minimum(x, 1.0) at ties", lambda np, x: np.maximum(x, 0.25) + np.minimum(x, 1.0) * 2.0, xb),
+        ("np.fmax(x, x[::-1]) at ties", lambda np, x: np.fmax(x, x[::-1]), xt),
+        ("np.max / np.min over tied entries", lambda np, x: np.max(x) * 2.0 + np.min(x), xt),
+        ("np.amax(x, axis) with ties along the axis", lambda np, x: np.amax(np.reshape(x, (2, 2)), axis=0), xt),
+        ("np.abs / np.absolute at 0", lambda np, x: np.abs(x) + np.absolute(x * 2.0), xb),
+        ("np.sort with ties", lambda np, x: np.sort(x) * onp.arange(1.0, 5.0), xt),
+    ]
+
+
+def run_adjoint(seed=0):
+    import numpy as onp
+    import autograd.numpy as np
+    from autograd import make_jvp, make_vjp
+
+    out = []
+    rs = onp.random.RandomState(seed + 5)
+    for lab, f, x0 in adjoint_points():
+        key = "PINNED adjoint | %s" % lab
+        try:
+            with warnings.catch_warnings():
+                warnings.simplefilter("ignore")
+                bad = None
+                for _ in range(3):
+                    v = rs.randn(*x0.shape)
+                    y, t = make_jvp(lambda x: f(np, x))(x0)(v)
+                    g = rs.randn(*onp.shape(y))
+                    c = make_vjp(lambda x: f(np, x))(x0)[0](g)
+                    a, b = float(onp.sum(g * t)), float(onp.sum(c * v))
+                    if not (onp.isfinite(a) and onp.isfinite(b) and abs(a - b) <= 1e-9 * max(1.0, abs(a), abs(b))):
+                        bad = "<g, jvp(v)> = %.12g but <vjp(g), v> = %.12g at x = %r" % (a, b, x0.tolist())
+                out.append(_res(key, bad is None, bad or ""))
+        except Exception as e:
+            out.append({"key": key, "status": "raises", "detail": "%s: %s" % (type(e).__name__, str(e)[:100]), "paths": 1, "queries": 0, "validated": 0, "verdicts": {}, "prim": "pinned"})
+    return out
 
 
 def run(seed=0):
@@ -62,5 +113,5 @@ def run(seed=0):
 
 
 if __name__ == "__main__":
-    for r in run():
+    for r in run() + run_adjoint():
         print(r["status"], r["key"], r["detail"][:200])
